@@ -52,6 +52,10 @@ func (s *Session) Project(names []string) (snap Snapshot) {
 			rd = "/"
 		}
 
+		if s.Win {
+			rd = "C:" + strings.ReplaceAll(rd, "/", "\\")
+		}
+
 		des, err := s.base().ReadDir(rd)
 		if dir == "" && s.NoRootList {
 			des, err = s.probeRoot(names)
@@ -81,7 +85,12 @@ func (s *Session) Project(names []string) (snap Snapshot) {
 				continue
 			}
 
-			if _, err := s.base().Lstat(dir + "/" + n); err == nil {
+			hp := dir + "/" + n
+			if s.Win {
+				hp = "C:" + strings.ReplaceAll(hp, "/", "\\")
+			}
+
+			if _, err := s.base().Lstat(hp); err == nil {
 				snap.Post = append(snap.Post, Entry{P: append(append([]string{}, parts...), s.abstractName(n)), K: "HIDDEN", D: []int{}, T: Path{Parts: []string{}}, Same: [][]string{}})
 			}
 		}
@@ -90,10 +99,15 @@ func (s *Session) Project(names []string) (snap Snapshot) {
 			n := de.Name()
 			cp := append(append([]string{}, parts...), s.abstractName(n))
 			full := dir + "/" + n
+			fullOS := full
+
+			if s.Win {
+				fullOS = "C:" + strings.ReplaceAll(full, "/", "\\")
+			}
 
 			e := Entry{P: cp, D: []int{}, T: Path{Parts: []string{}}, Same: [][]string{}}
 
-			fi, err := s.base().Lstat(full)
+			fi, err := s.base().Lstat(fullOS)
 			if err != nil {
 				e.K = "GHOST"
 				snap.Post = append(snap.Post, e)
@@ -110,7 +124,7 @@ func (s *Session) Project(names []string) (snap Snapshot) {
 
 			switch in.K {
 			case "file":
-				b, err := s.base().ReadFile(full)
+				b, err := s.base().ReadFile(fullOS)
 				if err != nil {
 					e.K = "READFILE-" + ErrName(err)
 				}
@@ -122,7 +136,7 @@ func (s *Session) Project(names []string) (snap Snapshot) {
 
 				files = append(files, finfo{idx: len(snap.Post), fi: fi})
 			case "link":
-				t, err := s.base().Readlink(full)
+				t, err := s.base().Readlink(fullOS)
 				if err != nil {
 					e.K = "READLINK-" + ErrName(err)
 				}
@@ -212,7 +226,12 @@ func (s *Session) probeRoot(names []string) ([]fs.DirEntry, error) {
 			continue
 		}
 
-		if fi, err := s.base().Lstat("/" + n); err == nil {
+		rp := "/" + n
+		if s.Win {
+			rp = "C:\\" + n
+		}
+
+		if fi, err := s.base().Lstat(rp); err == nil {
 			des = append(des, probedEntry{fi})
 		}
 	}
